@@ -168,6 +168,8 @@ def parseOp : List String → Option (Op Key Val × ListFmt)
   | ["olen"] => some (.olen, .none)
   | ["iter", f] => do let (f, lf) ← parseForm f; pure (.iter f, lf)
   | "fdel" :: ks => do pure (.foreachDel (← parseKeys ks), .pairs)
+  -- the visitor deleting the member it is called for (and skipping it): the same iteration-with-delete-current
+  | "vdel" :: ks => do pure (.foreachDel (← parseKeys ks), .pairs)
   | "fcdel" :: ks => do pure (.foreachCDel (← parseKeys ks), .pairs)
   | _ => none
 
